@@ -433,6 +433,11 @@ def suite(ctx, res, n_random):
     hs.append((50, [("option", "use_zopflipng", False), ("option", "pngquant_flags", "--speed 1 --skip-if-larger --quality 100-100"), ("invoke",), ("option", "use_zopflipng", True)], "cbdt"))
     hs.append((51, [("option", "bitmap_resolution", 64), ("invoke",), ("option", "use_pngquant", False), ("invoke",), ("option", "use_pngquant", True)], "cbdt"))
     # faults at the other nodes of the bitmap pipeline: the invocation must exit non-zero and the next one must recover
+    # A -> B -> A: another output font built in the same directory with another bitmap option, then the first configuration again
+    hs.append((54, [("option", "output_file", "B.ttf"), ("option", "bitmap_resolution", 64), ("invoke",), ("option", "output_file", "Font.ttf"),
+                    ("option", "bitmap_resolution", 128)], "cbdt"))
+    hs.append((55, [("option", "output_file", "B.ttf"), ("option", "use_pngquant", False), ("invoke",), ("option", "output_file", "Font.ttf"),
+                    ("option", "use_pngquant", True)], "sbix"))
     hs.append((52, [("invoke-fault", "zopflipng")], "cbdt"))
     hs.append((53, [("invoke-fault", "resvg"), ("invoke-fault", "zopflipng")], "sbix"))
     hs += [(100 + i, gen_history(ctx.rng), ctx.rng.choice(["glyf_colr_1", "picosvg"])) for i in range(n_random)]
